@@ -90,9 +90,12 @@ def translate(repo):
     boms = re.findall(r"head\[0\]==(0x[0-9a-fA-F]{2})&&head\[1\]==(0x[0-9a-fA-F]{2})", flat)
     if len(boms) != 3:
         raise TranslateError("TextFile::text(): expected three BOM tests on head[0], head[1]")
-    m = re.search(r"head\[0\]==0x[0-9a-fA-F]{2}&&head\[1\]==0x[0-9a-fA-F]{2}&&n>=3&&read<byte>\(\)==(0x[0-9a-fA-F]{2})\)", flat)
+    m = re.search(r"head\[0\]==0x[0-9a-fA-F]{2}&&head\[1\]==0x[0-9a-fA-F]{2}&&n>=3&&read\(head\+2,1\)==1&&head\[2\]==(0x[0-9a-fA-F]{2})\)", flat)
     if not m:
-        raise TranslateError("TextFile::text(): UTF-8 BOM test `&& n>=3 && read<byte>() == 0x..` not found")
+        raise TranslateError("TextFile::text(): UTF-8 BOM test `&& n>=3 && read(head + 2, 1) == 1 && head[2] == 0x..` not found")
+    if "bytehead[8];if(n>=2){if(read(head,2)<2)head[0]=head[1]=0;if(head[0]==" not in flat:
+        raise TranslateError("TextFile::text(): the two BOM bytes are no longer read with `if (read(head, 2) < 2) head[0] = head[1] = 0;` "
+                             "(a file shorter than the cached size must not be compared through uninitialised bytes)")
     b3 = int(m.group(1), 16)
     loops = re.findall(r"while\(1\)\{if\(read\(b,2\)<2\)break;c=b\[([01])\]\|\(\(\(wchar_t\)b\[([01])\]\)<<8\);"
                        r"if\(c=='\\n'&&c0=='\\r'\)a\.resize\(a\.length\(\)-1\);a<<c;c0=c;\}a<<0;text=a\.data\(\);returntext;", flat)
@@ -476,14 +479,21 @@ def enc_bom(scalars, kind):
     return s.encode("utf-8")
 
 
+def _xdev_ok():
+    """is /dev/shm a writable directory on another device than /tmp (so that rename() fails with EXDEV)?"""
+    try:
+        return os.stat("/tmp").st_dev != os.stat("/dev/shm").st_dev and os.access("/dev/shm", os.W_OK)
+    except OSError:
+        return False
+
+
 def gen(rng, tier):
     quick = tier == "quick"
     cases = []
-    xdev_ok = True
-    try:
-        xdev_ok = os.stat("/tmp").st_dev != os.stat("/dev/shm").st_dev and os.access("/dev/shm", os.W_OK)
-    except OSError:
-        xdev_ok = False
+    xdev_ok = _xdev_ok()
+    if not xdev_ok:
+        from lib.core import log
+        log("[C17] WARNING: /dev/shm is not a second writable device: the EXDEV branch of Directory::move is NOT exercised in this run")
     # ---- (A) every size class through every writer, the POSIX view, content/size, copy, move
     for n in sizes(tier):
         big = n > 300000
@@ -592,6 +602,35 @@ def gen(rng, tier):
     # ---- (D) histories on one path (and a second one for copy/move)
     for i in range(250 if quick else 5000):
         cases.append(gen_history(rng, xdev_ok))
+    # ---- (F) near-BOM prefixes: files that begin almost like a byte-order mark, every short length (text(), content(), lines())
+    near = []
+    for a, xs in ((0xef, (0x41, 0xbb, 0xbc, 0xba)), (0xff, (0x41, 0xfe, 0xfd, 0xff)), (0xfe, (0x41, 0xff, 0xfe, 0xfd)), (0xbb, (0xbf, 0xef))):
+        near.append(bytes([a]))
+        for x in xs:
+            near.append(bytes([a, x]))
+    for x in (0x41, 0xbe, 0xc0, 0xbf, 0x0a, 0x80, 0xfe, 0xef):
+        near.append(bytes([0xef, 0xbb, x]))
+    for pre in near:
+        c = []
+        for extra in (0, 1, 2, 3, 7, 300):
+            b = pre + bytes(rng.choice(b"abcxyz\xbf\xef\xbb") for _ in range(extra))
+            c.append("xtext " + hexs(b))
+            if extra in (0, 1, 3):
+                c.append("xput tput " + hexs(b))
+                c.append("xlines " + hexs(b))
+                c.append("xobj t w size %s %s" % (hexs(b[:1]), hexs(b[1:])))
+        cases.append(c)
+    # stale cached size (hsize on a closed object, the file replaced by a shorter one through another object, then text()):
+    # the BOM probe must not look at bytes it did not read (repair a78e103)
+    for now in (b"", b"\xff", b"\xfe", b"\xef", b"\xef\xbb", b"\xff\xfe", b"A", b"\xef\xbb\xbf", b"\xef\xbbA"):
+        for old in (2, 3, 10):
+            cases.append(["rawput 1a " + hexs(b"0123456789"[:old]), "hnew 0 1a t", "hsize 0", "hnew 1 1a f", "hopen 1 w", "hw 1 " + hexs(now),
+                          "hclose 1", "htext 0", "hclose 0", "htext 0", "raw 1a"])
+    # CR as the last byte of an fgets piece, LF first of the next (line length = 253 mod 254), every quick run
+    for k in range(1, 5 if quick else 9):
+        L = 254 * k - 1
+        t = b"x" * L + b"\r\n" + b"y" * (L - 1) + b"\r\r\n" + b"z" * L + b"\r\n"
+        cases.append(["xlines " + hexs(t), "xrl " + hexs(t), "tput 1b " + hexs(t), "open 1b t r", "rl", "rl", "rl", "rl", "end", "close"])
     # ---- (E) persistent objects: one File/TextFile object written through, queried while open, closed, read back
     for i in range(260 if quick else 4000):
         n1 = rng.choice(OBJ_SIZES)
@@ -865,7 +904,13 @@ def distribution(cases):
     histlen = 0
     objh = 0
     objq = 0
+    xdev = {"xdev_ok": _xdev_ok(), "xmove_xdev": 0, "xmove_same_device": 0, "dev2_1_histories": 0, "moves_in_dev2_1_histories": 0}
+    crlf_split = 0
+    nearbom = 0
     for c in cases:
+        if "dev2 1" in c:
+            xdev["dev2_1_histories"] += 1
+            xdev["moves_in_dev2_1_histories"] += sum(1 for l in c if l.startswith(("move ", "moved ")))
         if any(l.startswith("hnew") for l in c):
             objh = objh + 1
             if any(c[i].startswith(("hw", "happ", "hput", "hsh")) and c[i + 1].startswith(("hsize", "hexists", "hisfile", "hisdir", "hmtime"))
@@ -893,11 +938,20 @@ def distribution(cases):
                     n = len(s)
                     k = "0" if n == 0 else "1..252" if n <= 252 else "253..256" if n <= 256 else "257..2000" if n <= 2000 else ">2000"
                     linelen[k] += 1
+            if t[0] == "xmove":
+                xdev["xmove_xdev" if t[1] == "1" else "xmove_same_device"] += 1
+            if t[0] in ("xlines", "xrl") and t[1][0] not in "gt" and tok_len(t[1]) <= 100000:
+                for seg in unhex(t[1]).split(b"\n")[:-1]:
+                    if seg.endswith(b"\r") and len(seg) % 254 == 0:
+                        crlf_split += 1
             if t[0] == "xtext":
                 b = tok_bytes(t[1])
+                if b[:1] in (b"\xef", b"\xff", b"\xfe") and b[:2] not in (b"\xff\xfe", b"\xfe\xff") and b[:3] != b"\xef\xbb\xbf":
+                    nearbom += 1
                 k = "utf16le" if b[:2] == b"\xff\xfe" else "utf16be" if b[:2] == b"\xfe\xff" else "utf8bom" if b[:3] == b"\xef\xbb\xbf" else "none"
                 bom[k] += 1
     return {"ops_by_kind": ops, "written_sizes": sz, "line_ends": ends, "line_lengths": linelen, "xtext_by_bom": bom,
+            "cross_device": xdev, "crlf_split_across_fgets_chunks": crlf_split, "xtext_near_bom_prefix": nearbom,
             "object_histories": objh, "object_histories_with_query_right_after_write_while_open": objq,
             "histories": hist, "mean_history_length": round(histlen / hist, 1) if hist else 0}
 
@@ -941,6 +995,12 @@ LEVEL_TEXT += (" Persistent objects (lazily opened handle + cached stat informat
                "path's current bytes (obj_after_close); stat-backed queries interleaved with writes on an open object change neither disk "
                "nor handle (obj_history); open for WRITE, any sequence of writes and queries, close: size() is the number of bytes written "
                "and content() exactly those bytes (obj_write_query_close).")
+LEVEL_TEXT += (" End to end: after any history of writers, if the reference store holds c then a fresh object returns c / c.length / "
+               "c.take n / the lines and text of c (history_read_back); a BOM-free string written with TextFile is what text() returns "
+               "(write_then_text); successive reads of a freshly opened File are consecutive pieces (read_seq_open); objects opened for "
+               "WRITE or APPEND, and the lazily opening writers (TextFile write/put/<</append, File put), with any writes and queries, "
+               "then close: old bytes (append) + everything written (obj_write_query_close, obj_lazy_write_query_close). "
+               "content() clauses carry the bound < 2 GiB (content() casts size() to int).")
 LEVEL_NOTE = ("Hypotheses (modelled, exercised by K, not verified): stdio and POSIX behave as listed under `assumptions` (fopen modes, fwrite "
               "delivery by fclose, fgets/fread/feof, stat size, rename/EXDEV/unlink); files are observed after the writer is closed (a still-open "
               "writer's buffered bytes and its cached size are not an `afterwards` observation); the line theorems assume NUL-free content "
@@ -953,6 +1013,12 @@ LEVEL_NOTE = ("Hypotheses (modelled, exercised by K, not verified): stdio and PO
               "exactly the texts with an adjacent CR LF (known finding utf16-crlf-fold: deliberate folding in TextFile::text(), "
               "text_utf16_crlf_counterexample); paths are abstract (4 names in 2 directories: no symlinks/hard links, permissions or disk-full "
               "errors, so the failing-copy branch of the EXDEV move is in the model but never taken by K); printf/scanf/operator>> of "
-              "TextFile, File::temp, Windows halves are outside the model. Repaired in /repo for this property: copy onto itself truncated "
+              "TextFile, File::temp, Windows halves are outside the model. Stream operators: what `<<(const char*)`, `TextFile << int` "
+              "(String(int), C03's formatting) and `File << int` in native byte order hand to fwrite is in the model (cstr, decimal, le32 with "
+              "cstr_spec, decimal_spec, le32_spec); the `_endian` swap of File::operator<<(const T&) / setEndian belongs to C16 and is not "
+              "exercised here, other T of the TextFile template (double, ...) are C03's formatting. content() of a file of 2 GiB or more "
+              "returns nothing ((int)size() is negative; observed on a sparse file, no memory error): outside the quantifier, theorems carry "
+              "the bound. Repaired in /repo for this property: copy onto itself truncated "
               "the file (576b460); cross-device move returned false and removed the source unconditionally (a7085af); readLine read one byte "
-              "before its buffer on a line starting with NUL (d08b735, outside the property's NUL-free domain).")
+              "before its buffer on a line starting with NUL (d08b735, outside the property's NUL-free domain); text() compared "
+              "uninitialised bytes with the byte-order marks when the file is shorter than the object's cached size (a78e103).")
